@@ -4,7 +4,7 @@ package mocker
 // one `c11.round` line, in a child process per round, and reports a canonical observation plus the measured facts
 // (race reports, crash, final text image, page protections, achieved overlap).
 //
-// line:  c11.round y=<0|1> K=<calls per caller and target> | S mock f kind v wo | B1 mock f kind v wo | B1 chk | B1 reset | C1 f g | N 2
+// line:  c11.round y=<0|1> d=<debug 0|1> K=<calls per caller and target> | S mock f kind v wo | B1 mock f kind v wo | B1 chk | B1 reset | C1 f g | N 2
 import (
 	"bufio"
 	"bytes"
@@ -40,6 +40,7 @@ type c11Thread struct {
 
 type c11Round struct {
 	yield   bool
+	debug   bool
 	k       int
 	neigh   int
 	threads []*c11Thread // S first (if present), then builders, then callers
@@ -70,6 +71,8 @@ func c11Parse(toks []string) (*c11Round, error) {
 			r.yield = n != 0
 		case "K":
 			r.k = n
+		case "d":
+			r.debug = n != 0
 		default:
 			return nil, fmt.Errorf("bad header key")
 		}
@@ -108,7 +111,7 @@ func c11Parse(toks []string) (*c11Round, error) {
 			}
 			f, e1 := strconv.Atoi(s[2])
 			v, e2 := strconv.Atoi(s[4])
-			if e1 != nil || e2 != nil || f < 0 || f >= len(c11Targets) || (s[3] != "ret" && s[3] != "cb" && s[3] != "cbo") {
+			if e1 != nil || e2 != nil || f < 0 || f >= len(c11Targets) || (s[3] != "ret" && s[3] != "cb" && s[3] != "cbo" && s[3] != "tab") {
 				return nil, fmt.Errorf("bad mock")
 			}
 			th.ops = append(th.ops, c11Op{kind: "mock", f: f, rk: s[3], v: v})
@@ -141,6 +144,8 @@ func c11Mock(b *Builder, op c11Op) {
 	switch op.rk {
 	case "ret":
 		b.Func(f).Return(op.v)
+	case "tab":
+		b.Func(f).Return(op.v).When(1).Return(op.v + 1).When(2).Return(op.v + 2)
 	case "cb":
 		k := op.v
 		b.Func(f).Apply(func(a int) int { return a + k })
@@ -239,6 +244,9 @@ func TestVerifC11Child(t *testing.T) {
 			callers = append(callers, th)
 		}
 	}
+	if r.debug {
+		OpenDebug() // debug.go wraps every replacement in a logging MakeFunc (interceptDebugInfo)
+	}
 	sb := Create()
 	if steady != nil {
 		for _, op := range steady.ops {
@@ -306,7 +314,8 @@ func TestVerifC11Child(t *testing.T) {
 			barrier()
 			for k := 0; k < r.k; k++ {
 				for _, f := range th.targets {
-					cnt[strconv.Itoa(f)+":"+c11Call(f, ci+1)]++
+					a := (ci+k)%4 + 1 // distinct arguments across concurrent callers; every caller checks its own result
+					cnt[strconv.Itoa(f)+":"+strconv.Itoa(a)+">"+c11Call(f, a)]++
 				}
 				if r.yield && k%8 == 0 {
 					runtime.Gosched()
